@@ -54,3 +54,21 @@ def validate(module: str, cfg: str, workdir: str, records: List[Any], expected_s
         verdicts[tid] = (sorted(tlc.as_set(v[2])), sorted(tlc.as_set(v[3])))
     os.remove(path)
     return verdicts, r
+
+
+def export_by_print(module: str, cfg: str, workdir: str, workers: int = 8, env=None) -> List[Any]:
+    """(B) for modules whose input is grown inside the behaviour: the Export cfg makes TLC print every complete
+    input once as  "X{json}"  (PrintT("X" \\o ToJson(inp))) and stops the search there."""
+    r = tlc.run_tlc(module, cfg, workdir, env=env, workers=workers, tag="\0")
+    out = []
+    seen = set()
+    for ln in r.output.splitlines():
+        if ln.startswith('"X{') or ln.startswith('"X['):
+            txt = ln[2:-1].replace('\\"', '"').replace("\\\\", "\\")
+            if txt in seen:
+                continue
+            seen.add(txt)
+            out.append(json.loads(txt))
+    if not out:
+        raise tlc.MachineryError(f"{module}/{cfg} exported nothing")
+    return out
